@@ -6,12 +6,22 @@ from .engine import REPO, WORK, VERIF
 def build_rlib():
     import hashlib
     tdir = os.path.join(WORK, "c15-target" + ("" if REPO == "/repo" else "-" + hashlib.sha1(REPO.encode()).hexdigest()[:8]))
-    p = subprocess.run(["cargo", "build", "--offline", "--quiet", "--lib"], cwd=REPO,
+    p = subprocess.run(["cargo", "build", "--offline", "--quiet", "--lib", "--message-format=json"], cwd=REPO,
                        env=dict(os.environ, CARGO_TARGET_DIR=tdir, CARGO_NET_OFFLINE="true"),
                        capture_output=True, text=True)
-    rlib = os.path.join(tdir, "debug", "libcircular_buffer.rlib")
-    if p.returncode != 0 or not os.path.exists(rlib):
-        return None, p.stderr[-2000:]
+    rlib = None
+    import json
+    for line in p.stdout.splitlines():
+        try:
+            m = json.loads(line)
+        except ValueError:
+            continue
+        if m.get("reason") == "compiler-artifact" and m.get("target", {}).get("name") in ("circular_buffer", "circular-buffer"):
+            for f in m.get("filenames", []):
+                if f.endswith(".rlib"):
+                    rlib = f
+    if p.returncode != 0 or not rlib or not os.path.exists(rlib):
+        return None, (p.stderr or p.stdout)[-2000:]
     return rlib, ""
 
 
